@@ -86,7 +86,9 @@ func expandTemplate(t string, match string, groups []string) string {
 			for l := len(digits); l >= 1; l-- {
 				num := 0
 				for _, d := range digits[:l] {
-					num = num*10 + int(d-'0')
+					if num < 1000000 { // a number of any length: no pattern has that many groups
+						num = num*10 + int(d-'0')
+					}
 				}
 				if num >= 1 && num <= len(groups) {
 					sb.WriteString(groups[num-1])
@@ -338,7 +340,7 @@ func TestC17_Random(t *testing.T) {
 	defer finish(t, rec)
 	pats := genRegexPattern(2)
 	subj := rapid.Map(rapid.SliceOfN(rapid.SampledFrom([]string{"a", "b", "c", "a", "b", "A", "B", "\n", "é", "/", "a", "b", "(", "]", "\\", "1", "."}), 0, 12), func(p []string) string { return strings.Join(p, "") })
-	templ := rapid.Map(rapid.SliceOfN(rapid.SampledFrom([]string{"$0", "$1", "$2", "$3", "$10", "$12", "$11", "$$", "$", "$x", "x", "-", "$9", "<", ">", "1", "0"}), 0, 5), func(p []string) string { return strings.Join(p, "") })
+	templ := rapid.Map(rapid.SliceOfN(rapid.SampledFrom([]string{"$0", "$1", "$2", "$3", "$10", "$12", "$11", "$$", "$", "$x", "x", "-", "$9", "<", ">", "1", "0", "$99999999999999999999", "$18446744073709551617", "$4294967297", "$100000000000000000000000000000001"}), 0, 5), func(p []string) string { return strings.Join(p, "") })
 	rapidRun(t, rec, 30000, 400000, func(rt *rapid.T) {
 		c := c17Case{
 			Pattern: pats.Draw(rt, "pattern"),
@@ -421,6 +423,10 @@ func TestC17_Fixed(t *testing.T) {
 		{Pattern: "(a)(b)(c)(d)(e)(f)(g)(h)(i)(j)?(k)?(l)?", Subject: "abcdefghikxabcdefghijl", Op: "replace", Templ: "$12-$11-$10-$9"},
 		{Pattern: "(a)(b)(c)(d)(e)(f)(g)(h)(i)(j)(k)?", Subject: "abcdefghij", Op: "match"},
 		{Pattern: "(x)?(y)?(z)?a", Subject: "ya", Op: "replace", Templ: "$1|$2|$3|$4|$10|$20|$30"},
+		// group numbers of any length (2^64+1 and 2^32+1 must not wrap round to group 1)
+		{Pattern: "(b)", Subject: "abc", Op: "replace", Templ: "$99999999999999999999"},
+		{Pattern: "(b)", Subject: "abc", Op: "replace", Templ: "[$18446744073709551617][$4294967297]"},
+		{Pattern: "b", Subject: "abc", Op: "replace", Templ: "$100000000000000000000000000000001"},
 		// left context of the second and later matches
 		{Pattern: "^a", Subject: "aaab", Op: "replace", Templ: "X"},
 		{Pattern: "^a", Subject: "aaab", Op: "match"},
